@@ -20,6 +20,8 @@ ENGINES = [
          kind_free_text='explicit-state breadth-first search over histories of public operations on a pool of live objects; states are re-created by replaying the shortest history on fresh real objects; canonical key = shapes + copy-provenance partition (C03: exact values); level-synchronous, 16 threads; fixpoint or depth bound'),
     dict(name='E5 call-sequence explorer', path='seq/callseq.cpp', serves_properties=['C01', 'C02', 'C04', 'C05', 'C06', 'C07', 'C08', 'C11', 'C13', 'C14', 'C17', 'C09'],
          kind_free_text='every sequence of calls up to a depth bound over a menu of 12-29 calls on LONG-LIVED forms, operator expressions, generators and splines (plus assignments / in-place updates of the argument splines, tracked by a reference state; objects on a second grid; temporary grids whose storage comes from a private LIFO arena so that address reuse is guaranteed); one pristine forked process per sequence; after every call: exact reference value, persistent operands unchanged, results of earlier calls unchanged, and (mutation-free menus) identity with the same call executed alone in a fresh process'),
+    dict(name='E6 fault-position explorer', path='seq/faults.cpp', serves_properties=['C14', 'C10', 'C09'],
+         kind_free_text='every operation of a menu of 16 in-place updates and assignments on every (target window, operand window) pair of a 5-point grid is executed fault-free (counting its N scalar arithmetic operations) and then N times on fresh objects with the k-th scalar arithmetic operation throwing (k = 1..N): exactly one injected fault per execution, at every possible position; afterwards the target and the operands are unchanged, every object is valid, and the call repeated fault-free gives the fault-free result'),
     dict(name='E4 schedule explorer', path='sched/', serves_properties=['C18'],
          kind_free_text='stateless model checker for the implementation: compiler instrumentation (-fsanitize=thread) linked against an own runtime (scheduler at every synchronisation operation, vector-clock happens-before race detector, allocation shadow), iterative preemption bounding + state-cached DFS, every execution in a child forked from a pristine zygote'),
 ]
@@ -82,7 +84,7 @@ CHECKS['C02'] = dict(
     title='Evaluation returns the value of the stored piecewise polynomial',
     level='exploration',
     technique='bounded-exhaustive enumeration of (grid, window, order, coefficient pattern, abscissa) on the real evaluation code with an exact rational scalar against explicit-power evaluation',
-    level_text='Every window of 4 grid families up to 5 (thorough 7) points, orders 0..3 (0..4), unit/zero/generic coefficient vectors and a probe set containing every grid point, interior points of every grid interval, points just outside and far outside; exact equality with the midpoint polynomial computed independently; plus supports of 17..66 (thorough ..129) grid points on both sides of powers of two (size-dependent search strategies); and evaluation right after the data of an already evaluated spline was replaced (converting assignment, same-order assignment, +=) for every window pair and every common interval. Exhaustive within those bounds.',
+    level_text='Every window of 4 grid families up to 5 (thorough 7) points, orders 0..3 (0..4), unit/zero/generic coefficient vectors and a probe set containing every grid point, interior points of every grid interval, points just outside and far outside; exact equality with the midpoint polynomial computed independently; plus supports of 17..66 (thorough ..129) grid points on both sides of powers of two (size-dependent search strategies); orders 5, 8, 11, 12, 13, 16, 20, 21 (both parities; evaluation kernels that change strategy with the number of coefficients) on two windows of a 4-point grid; and evaluation right after the data of an already evaluated spline was replaced (converting assignment, same-order assignment, +=) for every window pair and every common interval. Exhaustive within those bounds.',
     level_note='Trusted: GMP, the 20-line explicit-power oracle in checks/c02_eval.cpp. x outside the probe set is covered by the degree argument (more than order+1 probes per interval) and by probing both sides of every comparison threshold; NaN abscissae are outside the statement.',
     units=std_units('checks/c02_eval.cpp'),
     rule='cases = (grid family, n, window, order, coefficient pattern); each evaluates the spline at every probe point (counter point_evaluations). Non-trivial = coefficient vector non-zero.',
@@ -98,7 +100,7 @@ CHECKS['C15'] = dict(
     title='Predicates tell the truth',
     level='exploration',
     technique='bounded-exhaustive enumeration of splines and spline pairs on the real predicates against reference predicates on the exact reference model',
-    level_text='isZero on every (window, order, coefficient pattern incl. zero on some/all intervals); checkOverlap on every ordered window pair x order pair on a shared grid and on equal distinct grid objects; ==/!= on every window pair x coefficient-pattern pair on the same grid, an equal copy and a grid with one point moved. Exact, exhaustive within the bounds.',
+    level_text='isZero on every (window, order, coefficient pattern incl. zero on some/all intervals); checkOverlap on every ordered window pair x order pair on a shared grid and on equal distinct grid objects; ==/!= on every window pair x coefficient-pattern pair on the same grid, an equal copy and a grid with one point moved. Floating types: tiny coefficients are not zero, coefficient vectors that differ in the last bit are unequal, +0 and -0 are equal coefficient values (bitwise comparisons show here). Exact, exhaustive within the bounds.',
     level_note='Trusted: GMP, engine/refpp.h (two independent formulations of each expected value are cross-checked in every case). Reflexivity is claimed for finite coefficients only (NaN != NaN).',
     units=std_units('checks/c15_predicates.cpp'),
     rule='cases = isZero(grid, window, order, pattern) | overlap(grid variant, order pair, window pair) | eq(grid variant, order, window pair, pattern pair). Non-trivial = operands have intervals (isZero: spline non-zero).',
@@ -424,7 +426,7 @@ CHECKS['C16'] = dict(
     level='exploration',
     engine='E1 input enumerator x build-configuration matrix',
     technique='bounded-exhaustive enumeration of well-scaled grids, knot multiplicities, orders and operations in float, double and long double across a build matrix (compiler x optimisation level x self-checks on/off); every produced number is converted exactly to a rational and compared with an independent exact reference under the stated 2^20 eps bound relative to the sum of absolute values of the terms; output bit patterns hashed and compared between self-check on/off builds',
-    level_text='All 375 grids formed by 2..4 of the points {-8,-63/8,-4,-1/8,0,1/8,1,7/2,63/8,8}; knot multiplicities 1..2 at every point; generation of orders 0..6 (every coefficient), and for 10 order pairs from 0..3 on three window placements: evaluation at exactly representable points, a+b, a*b, Dx<1>, Dx<2>, X<1>..X<6>, spline factor, operator expressions with scalars of a narrower floating type and of integral type (X1/3f, I/7f, 3f*Dx1, X1/3, X1/7.0), X1*Dx1-2, two linear and four bilinear forms. The magnitude comes from a reference written in the midpoint formulation over (value, magnitude) pairs of rationals (not from the operation sequence of the tree under test), cross-checked against the global-basis reference in every case.',
+    level_text='All 375 grids formed by 2..4 of the points {-8,-63/8,-4,-1/8,0,1/8,1,7/2,63/8,8}; knot multiplicities 1..2 at every point; generation of orders 0..6 (every coefficient), and for 10 order pairs from 0..3 on three window placements: evaluation at exactly representable points, a+b, a*b, Dx<1>, Dx<2>, X<1>..X<6>, spline factor, operator expressions with scalars of a narrower floating type and of integral type (X1/3f, I/7f, 3f*Dx1, X1/3, X1/7.0), X1*Dx1-2, two linear and four bilinear forms; and, on the generated B-splines of orders 4..6 themselves (operands whose high-order coefficients are naturally tiny next to the low-order ones), the linear form, scalar products and Dx1-Dx1 forms with their neighbours and scalar products with every overlapping order-0 B-spline in both argument orders. The magnitude comes from a reference written in the midpoint formulation over (value, magnitude) pairs of rationals (not from the operation sequence of the tree under test), cross-checked against the global-basis reference in every case.',
     level_note='Tolerance-based enumeration evidence for a numerical-stability claim, not an error analysis (weakest kind in this design). Trusted: GMP, exact float->rational conversion, the (value, magnitude) reference in checks/c16_float.cpp. -ffp-contract=off so that both compilers evaluate the same expressions.',
     units=c16_units,
     post=c16_post,
@@ -536,12 +538,12 @@ CHECKS['C18'] = dict(
     level='model_checking',
     engine='E4 schedule explorer',
     technique='stateless model checking of the implementation: real pthreads serialised by a cooperative scheduler at every synchronisation point (atomic operation, static-initialisation guard, thread start/exit), iterative preemption bounding 0,1,2 followed by unbounded depth-first search with state caching; happens-before (vector-clock) race detection over every load and store reported by compiler instrumentation (-fsanitize=thread, linked against an own runtime), allocation shadow, and bit-wise comparison of every thread\'s results with a sequential run on every explored schedule',
-    level_text='Programs: all 196 ordered pairs of 14 operations (evaluate; copy+destroy of spline, support and grid; a+b, a*b, a-b, predicates; operator application incl. spline factor; bilinear/linear forms; generateBSplines; isZero with its function-local static; destruction of thread-owned copies sharing the grid; support algebra; combination with a spline on an equal grid held in a distinct object; X<2>, X<4>, Dx<2>; linearCombination, integrate<3>, product with an interval-free spline; move construction/assignment of the owned copy, getData and a new Grid over the shared storage; copy + use + destruction of a generator, an operator expression with a spline factor and both forms) on shared const objects, further pairs with a class-type scalar that is neither arithmetic nor trivially copyable (guarded static initialisation; code paths chosen for heavy scalars), including every operation against itself, 3-thread and 2x2-operation programs (thorough: all 455 unordered triples and all 2x2-operation programs over the five operations that copy, destroy or lazily initialise). For each program every schedule with at most 2 preemptions is covered (bounds 0, 1, 2 run to completion); the unbounded state-cached search is then run under an execution cap and completes for the smaller programs (counters say for how many). With synchronisation confined to read-modify-write chains on reference counts, one preemption already places any two code segments of two threads concurrently, so every potential race between segments is examined within the bound. On every execution: no pair of conflicting accesses unordered by happens-before, no use after free / double free, schedule-independent set of live blocks, no deadlock, per-operation result digests identical to the operation run alone.',
+    level_text='Programs: all 225 ordered pairs of 15 operations (evaluate; copy+destroy of spline, support and grid; a+b, a*b, a-b, predicates; operator application incl. spline factor; bilinear/linear forms; generateBSplines; isZero with its function-local static; destruction of thread-owned copies sharing the grid; support algebra; combination with a spline on an equal grid held in a distinct object; X<2>, X<4>, Dx<2>; linearCombination, integrate<3>, product with an interval-free spline; move construction/assignment of the owned copy, getData and a new Grid over the shared storage; copy + use + destruction of a generator, an operator expression with a spline factor and both forms; construction of thread-private grids, generators, bases and splines from scratch) on shared const objects, further pairs with a class-type scalar that is neither arithmetic nor trivially copyable (guarded static initialisation; code paths chosen for heavy scalars), including every operation against itself, 3-thread and 2x2-operation programs (thorough: all 455 unordered triples and all 2x2-operation programs over the five operations that copy, destroy or lazily initialise). For each program every schedule with at most 2 preemptions is covered (bounds 0, 1, 2 run to completion); the unbounded state-cached search is then run under an execution cap and completes for the smaller programs (counters say for how many). With synchronisation confined to read-modify-write chains on reference counts, one preemption already places any two code segments of two threads concurrently, so every potential race between segments is examined within the bound. On every execution: no pair of conflicting accesses unordered by happens-before, no use after free / double free, schedule-independent set of live blocks, no deadlock, per-operation result digests identical to the operation run alone.',
     level_note='The harness TU is the real library code compiled with -fsanitize=thread; libstdc++ header code is instrumented too, libstdc++.so/libc internals are not (operator new/delete, memcpy/memmove/memset and the guard functions are interposed). Scheduler hand-offs are not happens-before edges. Sequentially consistent interleavings only; under _GLIBCXX_TSAN libstdc++ disables its double-word fast path in shared_ptr release, so that path is not covered. 2-3 threads, 1-2 operations each. A free-running pass of the same bodies under the real ThreadSanitizer runtime (unit tsan-free: all operation pairs, both scalar variants, repeated; thorough: all triples) is a secondary detector for code the instrumentation cannot see; it is not the deciding step.',
     units=c18_units,
     deadline=dict(quick=600, thorough=4200),
     rule='each evaluation is one complete (or state-cache-pruned) execution of a program under one schedule in a forked child; distinct_nontrivial = distinct orders in which the threads performed their synchronisation operations, summed over programs. counters: programs, executions, states, transitions, atomic/guard/plain access counts observed by the runtime.',
-    bounds=dict(quick='260 programs: 196 pairs + 36 class-scalar pairs + 18 triples + 10 2x2 programs; every schedule with <= 2 preemptions; unbounded search granted 6000 further executions per program',
+    bounds=dict(quick='291 programs: 225 pairs + 37 class-scalar pairs + 18 triples + 10 2x2 programs; every schedule with <= 2 preemptions; unbounded search granted 6000 further executions per program',
                 thorough='all pairs, all 455 unordered triples, 576 2x2-operation programs; every schedule with <= 2 preemptions; unbounded search granted 8000 further executions per program'),
     guards=dict(func=c18_guard, counters=['programs', 'executions', 'states', 'transitions'], classes=['threads:2:ops:1:variant0', 'threads:3:ops:1:variant0', 'threads:2:ops:2:variant0', 'threads:2:ops:1:variant1']),
     mc_note='states = distinct abstract states at scheduling points (per-thread progress, values observed, vector clocks, contents and clocks of all synchronisation words); transitions = scheduling points executed beyond replayed prefixes; every trace is an execution of the implementation.',
@@ -576,3 +578,28 @@ _c['bounds'] = dict(quick=_c['bounds']['quick'] + '; call sequences: 8 menus to 
 _c = CHECKS['C09']
 _c['units'] = (lambda prev: (lambda tier: prev(tier) + [seq_unit(d, 'san', 'seq-san-' + d, depths=(3, 3)) for d in ['mix', 'bf', 'lf', 'op', 'gen', 'eval', 'grid']]))(_c['units'])
 _c['level_text'] += ' The call-sequence menus (E5: long-lived forms, operator expressions, generators, splines; every sequence to depth 3) run under the same sanitizer build.'
+
+
+# ---- E6 fault-position units ---------------------------------------------------------------------------------------------
+def fault_filter(cid, prev):
+    def f(v):
+        k = v['key']
+        if k.startswith('fault:'):
+            return k.startswith('fault:' + cid + ':')
+        return prev(v) if prev else True
+    return f
+
+
+for _cid in ('C14', 'C10'):
+    _c = CHECKS[_cid]
+    _c['units'] = (lambda prev: (lambda tier: prev(tier) + [unit('faults', 'seq/faults.cpp', 'exact')]))(_c['units'])
+    _c['viol_filter'] = fault_filter(_cid, _c.get('viol_filter'))
+    _c['engine'] = _c['engine'] + ' + E6 fault-position explorer'
+    _c['guards'] = dict(_c['guards'], classes=_c['guards'].get('classes', []) + ['threw', 'op:t+=a2', 'op:t*=c', 'op:t=t*a0'], counters=_c['guards'].get('counters', []) + ['fault_positions'])
+CHECKS['C14']['level_text'] += ' Fault positions (E6): 16 in-place updates and assignments (+= -= with same and lower order, *= /=, converting assignment, results of + - * unary minus, operator applications and linearCombination assigned back) on every (target window, operand window) pair of a 5-point grid, each executed once per scalar arithmetic operation it performs with exactly that operation throwing (19 296 executions): a call that throws leaves its target and its operands unchanged.'
+CHECKS['C14']['technique'] += '; plus exhaustive single-fault injection: every position at which the scalar arithmetic inside an in-place operation can throw'
+CHECKS['C10']['level_text'] += ' Fault positions (E6): the same 16 operations with the k-th scalar arithmetic operation throwing, for every k: every object is valid after the failed call and the call repeated on the survivors gives the fault-free result.'
+CHECKS['C10']['technique'] += '; plus exhaustive single-fault injection into the scalar arithmetic of 16 mutating operations (invariants and usability after the failed call)'
+_c = CHECKS['C09']
+_c['units'] = (lambda prev: (lambda tier: prev(tier) + [unit('faults-san', 'seq/faults.cpp', 'san')]))(_c['units'])
+_c['level_text'] += ' The fault-position explorer (E6: every position of a throwing scalar operation inside 16 mutating operations) runs under the same sanitizer build (unwinding through half-built results).'
